@@ -50,8 +50,12 @@ def judge(abs_rec, status, acc, out, f, scale):
         return ("clip.does_not_terminate", cls, status)
     if status != "ok":
         return ("clip.raises", cls, status)
-    if not isinstance(acc, bool):
-        return ("clip.accept_flag_type", "bool", repr(acc))
+    try:
+        if not (acc in (0, 1)):                      # a flag is judged by its truth value (0/1, numpy.bool_ and bool are all flags)
+            return ("clip.accept_flag_type", "a flag", repr(acc))
+        acc = bool(acc)
+    except Exception:  # pylint: disable=broad-except
+        return ("clip.accept_flag_type", "a flag", repr(acc))
     if cls == "accept" and not acc:
         return ("clip.rejects_segment_with_inside_part", "accept", "reject")
     if cls == "reject":
@@ -99,6 +103,8 @@ def corner_stage(ctx, pu, rng, ncand, nsample):
         f = lambda v, va=va, vb=vb: va * v + vb  # noqa: E731
         seg, bnd = [[f(x1), f(y1)], [f(x2), f(y2)]], [[f(xmin), f(ymin)], [f(xmax), f(ymax)]]
         status, acc, out = call(pu, seg, bnd, limit=0.25 if loops < 3 else 0.02)
+        if status == "loop":
+            status, acc, out = call(pu, seg, bnd, limit=2.0 if loops < 3 else 0.5)      # wall-clock limits: confirm with a generous one before calling it a loop
         loops += status == "loop"
         odd = status != "ok" or acc is not True
         if not odd:
